@@ -311,7 +311,7 @@ def shards(tier: str):
 def floors(tier: str):
     return {"unknown-type": 400, "unknown-ext-sub": 100, "unknown-c0-sub": 200, "model:error": 100, "model:clean": 100,
             "decoder-rejected": 20, "how:recomputed": 100, "how:truncate": 30,
-            "how:c0-normal-section": 40, "short-wrapper": 14}
+            "how:c0-normal-section": 40, "short-wrapper": 14, "zero-records": 6}
 
 
 def run_shard(spec, seed: int, tier: str):
@@ -338,6 +338,13 @@ def run_shard(spec, seed: int, tier: str):
         for mt, data in shorts:
             fr_ = refproto.frame(gen, 0xB0, 0x90 if mt == 0x1F else 0x80, 9, mt, data)
             stats.guard(check_stream, gen, fr_, False, 2, stats, "short-wrapper")
+        if gen == 5:
+            # known status sub-types announcing ZERO records of the known (or a longer) length: an empty status report,
+            # not a request (a request announces length 0 and count 0)
+            for sub, known in ((0x21, 8), (0x23, 10), (0x33, 9)):
+                for rlen in (known, known + 2):
+                    data = bytes([sub, 0]) + struct.pack(">HHH", 0, rlen, 0)
+                    stats.guard(check_stream, gen, refproto.frame(gen, 0xB0, 0x80, 11, 0xC0, data), False, 2, stats, "zero-records")
         stats.exhaustive = True
         stats.samples.append({"gen": gen, "part": "all unknown type bytes" + (" and all unknown 0xC0 sub-types" if gen == 5 else "")})
     elif spec["part"] == "subids":
